@@ -24,7 +24,7 @@ def block_items(b):
 def run_tool(exe, args, timeout=120):
     env = dict(os.environ); env.update(vlib.SAN_ENV)
     try:
-        return subprocess.run([exe] + args, stdout=subprocess.PIPE, stderr=subprocess.PIPE, text=True, env=env, timeout=timeout)
+        return subprocess.run([exe] + args, stdout=subprocess.PIPE, stderr=subprocess.PIPE, text=True, errors="replace", env=env, timeout=timeout)
     except subprocess.TimeoutExpired:
         return None
 
